@@ -46,6 +46,11 @@ namespace GeographicLib {
       throw GeographicErr("Polar semi-axis is not positive");
     fill(_c, _c + Lmax * AUXNUMBER * AUXNUMBER,
          numeric_limits<real>::quiet_NaN());
+    // Populate the series coefficients now.  Filling them on demand from the
+    // const member functions is a data race if the object is shared by threads.
+    for (int auxout = 0; auxout < AUXNUMBER; ++auxout)
+      for (int auxin = 0; auxin < AUXNUMBER; ++auxin)
+        fillcoeff(auxin, auxout, ind(auxout, auxin));
   }
 
   /// \cond SKIP
@@ -73,6 +78,11 @@ namespace GeographicLib {
       throw GeographicErr("Polar semi-axis is not positive");
     fill(_c, _c + Lmax * AUXNUMBER * AUXNUMBER,
          numeric_limits<real>::quiet_NaN());
+    // Populate the series coefficients now.  Filling them on demand from the
+    // const member functions is a data race if the object is shared by threads.
+    for (int auxout = 0; auxout < AUXNUMBER; ++auxout)
+      for (int auxin = 0; auxin < AUXNUMBER; ++auxin)
+        fillcoeff(auxin, auxout, ind(auxout, auxin));
   }
   /// \endcond
 
